@@ -18,6 +18,8 @@
       atom.frac_coords = … (fixes/C12_4), Shelxfile.add_atom)  -> `AtomSt`, `Edit`, `applyEdit`, `history`, `parseAtom`, `newAtom`
     the Shelxfile object when the cell is changed in place (shx.cell.set('CELL …'), fixes/C12_6)
                                                              -> `FileSt`, `FEdit`, `applyF`, `fileHistory`
+    the memo of OrthogonalMatrix.inversed (`_inversed`) on the object cell.o = Shelxfile.orthogonal_matrix, in histories
+      that also ASK for the inverse between the edits           -> `MemoSt`, `Step`, `answerInverse`, `applyStep`, `stepHistory`
         (all as repaired by fixes/C12_1 … C12_5; the code as it was: `ustarOld`, `ucartOld`, `isoBranchOld`,
          and for is_npd the 100 unshifted QR steps of misc.qr_decomposition / misc.eigenvals: `qrDecomp`, `eigenvals`)
   `math.cos/sin` VALUES enter as fields of `Cell` (`ca … sg`), `math.sqrt` as a function parameter; the proof
@@ -310,6 +312,53 @@ def atomEdits : List (FEdit K) → List (Edit K)
   | [] => []
   | .atomEdit e :: es => e :: atomEdits es
   | .setCell _ :: es => atomEdits es
+
+/-! ### the memo of `OrthogonalMatrix.inversed` on the object `cell.o`, in histories that also ASK -/
+
+/-- the Shelxfile object together with the memo slot `cell.o._inversed` (`none` = Python's `None`; a `Matrix` is always
+    truthy, so `if not self._inversed` tests exactly for `None`). `cell.o` and `Shelxfile.orthogonal_matrix` are one
+    object (assigned when the CELL line is parsed, and again by `CELL.set`), so there is one slot. -/
+structure MemoSt (K : Type) where
+  file : FileSt K
+  memo : Option (M3 K)
+
+/-- one step of a history on the object: a public edit, or an evaluation of `cell.o.inversed`
+    (`shx.orthogonal_matrix.inversed` is the same property of the same object) -/
+inductive Step (K : Type) where
+  | edit (e : FEdit K)
+  | askInverse
+
+/-- what `OrthogonalMatrix.inversed` returns in a state: the memo if it is filled, else `self.m.inversed`
+    (`cell.o.m` is built from the cell's own parameters by `CELL.__init__`) -/
+def answerInverse (sqrt : K → K) (s : MemoSt K) : M3 K :=
+  match s.memo with
+  | some i => i
+  | none => inversed (orthoM sqrt s.file.cell)
+
+/-- `CELL.set` re-runs `CELL.__init__`, which builds a NEW `OrthogonalMatrix` (empty memo); the atom edits do not touch
+    the matrix object; asking fills the memo with the answer -/
+def applyStep (sqrt : K → K) (s : MemoSt K) : Step K → MemoSt K
+  | .edit (.setCell c) => ⟨applyF sqrt s.file (.setCell c), none⟩
+  | .edit (.atomEdit e) => ⟨applyF sqrt s.file (.atomEdit e), s.memo⟩
+  | .askInverse => { s with memo := some (answerInverse sqrt s) }
+
+/-- NOT the code: the matrix object kept across `CELL.set` and recalculated in place without clearing the memo. Only
+    used to show that the theorem `inverse_memo_coherent` hangs on the fresh object (`memo_kept_fails_on`). -/
+def applyStepKeep (sqrt : K → K) (s : MemoSt K) : Step K → MemoSt K
+  | .edit e => ⟨applyF sqrt s.file e, s.memo⟩
+  | .askInverse => { s with memo := some (answerInverse sqrt s) }
+
+def stepHistory (sqrt : K → K) (s : MemoSt K) (es : List (Step K)) : MemoSt K := es.foldl (applyStep sqrt) s
+def stepHistoryKeep (sqrt : K → K) (s : MemoSt K) (es : List (Step K)) : MemoSt K := es.foldl (applyStepKeep sqrt) s
+
+/-- the edits of a history, the questions dropped -/
+def stepEdits : List (Step K) → List (FEdit K)
+  | [] => []
+  | .edit e :: es => e :: stepEdits es
+  | .askInverse :: es => stepEdits es
+
+/-- a file that has just been read: nothing asked yet -/
+def readFresh (sqrt : K → K) (c : Cell K) (a : AtomSt K) : MemoSt K := ⟨readFile sqrt c a, none⟩
 
 /-! ### `misc.qr_decomposition`, `misc.eigenvals` (unshifted QR iteration, Gram–Schmidt as coded):
     what `Atom.is_npd` used before the repair -/
